@@ -108,11 +108,21 @@ func (route *baseRoute) run() {
 	}
 }
 
+// metricName returns the metric name of a line: the bytes before the first space.
+// destination filters apply to the name, not to the value or timestamp
+func metricName(buf []byte) []byte {
+	if i := bytes.IndexByte(buf, ' '); i >= 0 {
+		return buf[:i]
+	}
+	return buf
+}
+
 func (route *SendAllMatch) Dispatch(buf []byte) {
 	conf := route.config.Load().(Config)
+	name := metricName(buf)
 
 	for _, dest := range conf.Dests() {
-		if dest.Match(buf) {
+		if dest.Match(name) {
 			// dest should handle this as quickly as it can
 			log.Tracef("route %s sending to dest %s: %s", route.key, dest.Key, buf)
 			dest.In <- buf
@@ -122,9 +132,10 @@ func (route *SendAllMatch) Dispatch(buf []byte) {
 
 func (route *SendFirstMatch) Dispatch(buf []byte) {
 	conf := route.config.Load().(Config)
+	name := metricName(buf)
 
 	for _, dest := range conf.Dests() {
-		if dest.Match(buf) {
+		if dest.Match(name) {
 			// dest should handle this as quickly as it can
 			log.Tracef("route %s sending to dest %s: %s", route.key, dest.Key, buf)
 			dest.In <- buf
